@@ -286,6 +286,23 @@ func runC06(res *Result, d *Driver, tier string, seed uint64) {
 		syscall.Dup3(int(pf.Fd()), execN, syscall.O_CLOEXEC)
 		pf.Close()
 		taken[execN] = true
+		// a launcher that itself holds an inheritable descriptor at the number of a slot marked "close" (its own
+		// stdio, or anything it inherited): the marker must still leave that slot closed in the program
+		var inheritable []int
+		for i, f := range files {
+			if f != closeMarker || !rng.Chance(60) {
+				continue
+			}
+			switch {
+			case i < 3:
+				syscall.Syscall(syscall.SYS_FCNTL, uintptr(i), syscall.F_SETFD, 0)
+				inheritable = append(inheritable, i)
+			case !openNow[i] && !taken[i] && i != execN:
+				if syscall.Dup3(int(devnull.Fd()), i, 0) == nil {
+					inheritable = append(inheritable, i)
+				}
+			}
+		}
 		report := fmt.Sprintf("%s/report-%d", tmp, it)
 		vf := rng.Bool()
 		r := &forkexec.Runner{Args: []string{"probe", "report fds " + report + ";exit 0"}, Env: []string{}, ExecFile: uintptr(execN), Files: files}
@@ -294,7 +311,7 @@ func runC06(res *Result, d *Driver, tier string, seed uint64) {
 		}
 		before := *r
 		beforeFiles := append([]uintptr{}, r.Files...)
-		desc := fmt.Sprintf("files=%v exec=%d sources=%v vfork=%v", files, execN, srcs, vf)
+		desc := fmt.Sprintf("files=%v exec=%d sources=%v vfork=%v launcher-holds-inheritable=%v", files, execN, srcs, vf, inheritable)
 		for round := 0; round < 2; round++ {
 			os.Remove(report)
 			pid, err := r.Start()
@@ -346,6 +363,13 @@ func runC06(res *Result, d *Driver, tier string, seed uint64) {
 		}
 		for n := range taken {
 			syscall.Close(n)
+		}
+		for _, i := range inheritable {
+			if i < 3 {
+				syscall.CloseOnExec(i)
+			} else {
+				syscall.Close(i)
+			}
 		}
 	}
 	// the same contract inside a container: the launcher there is the container init, whose own descriptors (its stdio
